@@ -35,7 +35,9 @@ def vcMotion' (cmd : Nat) : M Nat := do
     let ls := lines s
     let lnmode := o2 < 0
     let (r1, o1, r2, o2) := normRegion s lnmode r1 o1 r2 o2
-    let o2 := if !lnmode && strHas "fteE%" mv && o2 < eol ls r2 then noeol s r2 o2 + 1 else o2
+    let incl := strHas "fteE%" mv || (mv == 59 && (s.charcmd == 102 || s.charcmd == 116 || s.charcmd == 0))
+      || (mv == 44 && (s.charcmd == 70 || s.charcmd == 84 || s.charcmd == 0))
+    let o2 := if !lnmode && incl && o2 < eol ls r2 then noeol s r2 o2 + 1 else o2
     if cmd == 121 then viYank r1 o1 r2 o2 lnmode
     else if cmd == 100 then viDelete r1 o1 r2 o2 lnmode
     else if cmd == 99 then viChange r1 o1 r2 o2 lnmode
